@@ -276,3 +276,49 @@ YK_ENTRY(H_t0d_put, (t0_put<true>()))
 YK_ENTRY(H_t1_put_split, (t1_put_split<0, 0x0180>()))
 YK_ENTRY(H_t1_put_split_scr, (t1_put_split<1, 0x0180>()))
 YK_ENTRY(H_t1_put_split_wide, (t1_put_split<0, 0x03c1>()))
+
+// ---------------------------------------------------------------------------------------------- C05 (get part)
+// a get that reported WARN_NOT_EXIST with a checked version, followed by the real insert of that absent key: the
+// recorded (version, node) pair is stale afterwards (and the pair was never empty)
+namespace {
+template<unsigned N, unsigned MAP>
+inline void c05_get_miss_then_put() {
+    bstate<N> st;
+    build_border<N>(st, true, MAP);
+    tree_instance ti;
+    ti.store_root_ptr(st.node);
+    session s;
+    open_session(s);
+    keys2 x;
+    make_keys<8>(x);
+    yk_assume(ref_find(st, x.ks, x.kl) < 0);
+    std::pair<char*, std::size_t> out{nullptr, 0};
+    std::pair<node_version64_body, node_version64*> cv{};
+    YK_ASSERT(get<char>(&ti, sv(x.k), out, &cv) == status::WARN_NOT_EXIST);
+    YK_ASSERT(cv.second != nullptr);
+    char nv = 'n';
+    YK_ASSERT(put<char>(s.tok(), &ti, sv(x.k), &nv, true, 1, nullptr, static_cast<value_align_type>(1), nullptr) == status::OK);
+    YK_ASSERT(cv.second->get_stable_version() != cv.first); // the insert is detected by re-validating the pair
+    YK_REACH();
+}
+} // namespace
+YK_ENTRY(H_c05_get_miss_put_n1, (c05_get_miss_then_put<1, 0>()))
+YK_ENTRY(H_c05_get_miss_put_n3, (c05_get_miss_then_put<3, 1>()))
+YK_HARNESS H_c05_get_miss_put_t0d() {
+    bstate<0> st;
+    build_border<0>(st, true, 0);
+    tree_instance ti;
+    ti.store_root_ptr(st.node);
+    session s;
+    open_session(s);
+    keys2 x;
+    make_keys<8>(x);
+    std::pair<char*, std::size_t> out{nullptr, 0};
+    std::pair<node_version64_body, node_version64*> cv{};
+    YK_ASSERT(get<char>(&ti, sv(x.k), out, &cv) == status::WARN_NOT_EXIST);
+    YK_ASSERT(cv.second != nullptr); // never empty for an existing storage, even when the root is the empty deleted border
+    char nv = 'n';
+    YK_ASSERT(put<char>(s.tok(), &ti, sv(x.k), &nv, true, 1, nullptr, static_cast<value_align_type>(1), nullptr) == status::OK);
+    YK_ASSERT(cv.second->get_stable_version() != cv.first);
+    YK_REACH();
+}
